@@ -130,6 +130,9 @@ type pathCtx struct {
 	fresh      [][]Decision // alternatives discovered on this path
 	asserts    int
 	assertsUnknown int
+	concrete   bool   // translator-validation run: inputs are pseudo-random constants
+	rngState   uint64
+	spawned    int
 }
 
 func (px *pathCtx) note(s string) {
@@ -400,6 +403,14 @@ func (px *pathCtx) chooseKind(n int, kind decKind) int {
 	if n <= 1 {
 		return 0
 	}
+	if px.concrete {
+		v := 0
+		if kind == decChoice {
+			v = int(px.rnd() % uint64(n))
+		}
+		px.trace = append(px.trace, Decision{Kind: kind, Val: uint64(v)})
+		return v
+	}
 	k := len(px.trace)
 	if k < len(px.prefix) {
 		d := px.prefix[k]
@@ -421,6 +432,65 @@ func (d Decision) IsSched() bool { return d.Kind == decSched }
 
 // IsChoice reports whether the decision is a harness-level verifChoose.
 func (d Decision) IsChoice() bool { return d.Kind == decChoice }
+
+// ConcreteRun is the result of one concrete execution of a harness (translator validation).
+type ConcreteRun struct {
+	Outcome string // VERIF-PASS | VERIF-ASSUME-FAILED | VERIF-REPRODUCED assert <label> | VERIF-REPRODUCED panic | skip:<why>
+	Values  map[string]uint64
+	Choices []int
+}
+
+// RunConcrete executes the harness once with pseudo-random concrete inputs (no solver
+// involvement) and reports the outcome in the vocabulary of the native replay runtime.
+func (e *Engine) RunConcrete(cfg HarnessConfig, seed uint64) ConcreteRun {
+	if cfg.Unwind == 0 {
+		cfg.Unwind = 64
+	}
+	s, err := smt.NewSolver(e.SolverKind, e.QueryTimeoutMs)
+	if err != nil {
+		return ConcreteRun{Outcome: "skip:solver"}
+	}
+	defer s.Close()
+	w := &worker{solver: s}
+	px := &pathCtx{eng: e, w: w, harness: cfg.Name, seq: map[string]int{}, unwind: cfg.Unwind, concrete: true, rngState: seed}
+	i := &interpreter{eng: e, prog: e.Prog, globals: map[*ssa.Global]*value{}, inited: map[*ssa.Package]int{}, px: px,
+		side: map[*value]interface{}{}, now: 1_700_000_000_000_000_000}
+	i.sched = newScheduler(i)
+	end := i.sched.runMain(cfg.Fn)
+	out := ConcreteRun{Values: map[string]uint64{}}
+	for _, in := range px.inputs {
+		out.Values[in.Name] = in.Term.C
+	}
+	for _, d := range px.trace {
+		if d.IsChoice() {
+			out.Choices = append(out.Choices, int(d.Val))
+		}
+	}
+	switch end.kind {
+	case endOK:
+		out.Outcome = "VERIF-PASS"
+	case endInfeasible:
+		out.Outcome = "VERIF-ASSUME-FAILED"
+	case endViolation:
+		out.Outcome = "VERIF-REPRODUCED assert " + end.label
+	case endPanic:
+		out.Outcome = "VERIF-REPRODUCED panic"
+	default:
+		out.Outcome = "skip:" + end.kind.String() + ": " + end.msg
+	}
+	if len(i.sched.gs) > 1 {
+		out.Outcome = "skip:goroutines (native schedule is not controlled)"
+	}
+	if len(px.trace) != len(out.Choices) {
+		// a solver-decided branch happened although all inputs are concrete: not comparable
+		for _, d := range px.trace {
+			if !d.IsChoice() && !d.IsSched() {
+				out.Outcome = "skip:symbolic residue"
+			}
+		}
+	}
+	return out
+}
 
 // ReplayPath re-executes exactly one path (given by its full decision vector) and returns
 // how it ended and the violations found on it.
